@@ -36,9 +36,11 @@ def run(ctx):
              "CODEC-HYP). distinct_nontrivial = distinct op lines (file names carry the creation time).",
         trusted_base=["file system: a completed fsync is durable, a crash truncates only the in-flight write (the "
                       "harness simulates the torn write by truncating a copy of the active file)",
-                      "record codec: Codec.Ok (round trip, no strict prefix decodes) is a hypothesis of the theorems; "
-                      "tested by h_wal on the real GMessage codec and on the harness entry codec (codec lines), proved "
-                      "for the token codec the driver runs and for a length-prefixed byte codec",
+                      "record codec: Codec.Ok (round trip, no strict prefix decodes) is a hypothesis of the generic theorems; it is PROVED "
+                      "for the cbor-gen model of every regenerated schema (cbor_codec_ok_every_type, walCodec_ok; decode_torn: a strict "
+                      "prefix of an encoding always ends in end-of-input), giving acked_survive_cbor / no_phantoms_cbor / "
+                      "wal_durability_cbor over bytes for the GMessage record; walEntry's delegation to GMessage (wal.go) is read by hand; "
+                      "tested by h_wal on the real GMessage codec (codec lines); the driver itself runs the token codec",
                       "record-level abstraction in the driver: a record is two tokens whose weights add up to the real "
                       "encoded size; any byte offset strictly inside a record maps to the one-token prefix"],
         assumptions=["no storage errors (open/write/fsync/remove succeed)",
